@@ -110,9 +110,13 @@ impl CovComputer {
                     buffer.push(record);
 
                     if total as u64 >= self.memory_ceil_gb as u64 * (1 << 30) {
+                        #[cfg(kmertools_verif)]
+                        ktio::verif::scope_begin("cov.batch", buffer.len(), self.threads);
                         let result = buffer
                             .par_iter()
                             .map(|seq| {
+                                #[cfg(kmertools_verif)]
+                                let _verif_item = ktio::verif::item((seq.n - buffer[0].n) as u64);
                                 let kvec = self.vectorise_one(&seq.seq, &counts);
                                 // optimise this with pre-sized string
                                 let kvec_str: Vec<String> = kvec
@@ -137,9 +141,13 @@ impl CovComputer {
 
                 if !buffer.is_empty() {
                     // optimise this with pre-sized string
+                    #[cfg(kmertools_verif)]
+                    ktio::verif::scope_begin("cov.batch", buffer.len(), self.threads);
                     let result = buffer
                         .par_iter()
                         .map(|seq| {
+                            #[cfg(kmertools_verif)]
+                            let _verif_item = ktio::verif::item((seq.n - buffer[0].n) as u64);
                             let kvec = self.vectorise_one(&seq.seq, &counts);
                             let kvec_str: Vec<String> = kvec
                                 .iter()
